@@ -23,6 +23,7 @@ use vhost::VhostBackend;
 use crate::engine::Ctx;
 use crate::rawpeer;
 use crate::sched::{asleep, Sched};
+use crate::feops::FeOp;
 use crate::spec::{self, fe};
 
 #[derive(Serialize, Deserialize, Debug, Clone, Copy, Hash, PartialEq, Eq)]
@@ -441,6 +442,252 @@ pub fn run_stress(ctx: &mut Ctx, c: &StressCase) -> Result<(), String> {
     Ok(())
 }
 
+// ------------------------------------------------------------------ stress over every answer-awaiting Frontend operation
+
+/// the conforming answer to any front-end request frame, echoing what identifies the request (None: nothing is sent)
+fn answer_any_fe(f: &spec::Frame) -> Option<(Vec<u8>, usize)> {
+    use crate::spec::Reply;
+    let r = spec::fe_req(f.code)?;
+    let nr = f.flags & spec::F_NEED_REPLY != 0;
+    let rep = |b: Vec<u8>, n: usize| Some((spec::reply(f.code, &b), n));
+    match r.reply {
+        Reply::AckOnly => {
+            if nr {
+                rep(spec::b_u64(0), 0)
+            } else {
+                None
+            }
+        }
+        Reply::U64 => rep(spec::b_u64(match f.code {
+            fe::GET_FEATURES => spec::VIRTIO_F_PROTOCOL_FEATURES | 1 << 32,
+            fe::GET_PROTOCOL_FEATURES => 0x3f_ffff,
+            fe::GET_QUEUE_NUM => 0x8000,
+            _ => 32,
+        }), 0),
+        Reply::VringState => {
+            let idx = spec::rd_u32(&f.body, 0);
+            rep(spec::b_vring_state(idx, 1000 + idx), 0)
+        }
+        Reply::Config => {
+            let (off, size, flags) = (spec::rd_u32(&f.body, 0), spec::rd_u32(&f.body, 4), spec::rd_u32(&f.body, 8));
+            rep(spec::b_config(off, size, flags, &vec![(off / 4) as u8; size as usize]), 0)
+        }
+        Reply::InflightFd => rep(spec::b_inflight(spec::rd_u64(&f.body, 0), 0, spec::rd_u16(&f.body, 16), spec::rd_u16(&f.body, 18)), 1),
+        Reply::EmptyFd => rep(vec![], 1),
+        Reply::DeviceState => rep(spec::b_u64(0x100), 0),
+        Reply::Status => rep(spec::b_u64(0), 0),
+        Reply::ShmemConfig => rep(spec::b_shmem_config(1, &vec![0x1000u64; 256]), 0),
+        Reply::Log => rep(f.body.clone(), 0),
+    }
+}
+
+/// every Frontend operation that awaits an answer, parameterised by the caller's identity where the reply can carry it
+fn all_fe_ops(t: u32) -> Vec<FeOp> {
+    let reg = crate::feops::Reg { f: [0x10_0000 * (t as u64 + 1), 0x1000, 0x7000_0000_0000 + 0x10_0000 * t as u64, 0], kind: crate::fdtrack::FdKind::Memfd };
+    vec![
+        FeOp::SetOwner,
+        FeOp::ResetOwner,
+        FeOp::ResetDevice,
+        FeOp::GetFeatures,
+        FeOp::SetFeatures(spec::VIRTIO_F_PROTOCOL_FEATURES | 1 << 32),
+        FeOp::GetProtocolFeatures,
+        FeOp::GetMaxMemSlots,
+        FeOp::GetVringBase(t),
+        FeOp::SetVringNum(t, 64),
+        FeOp::SetVringBase(t, 3),
+        FeOp::SetVringEnable(t, true),
+        FeOp::SetVringAddr { q: t, flags: 0, desc: 0x1000, used: 0x2000, avail: 0x3000, log: None },
+        FeOp::SetVringCall(t),
+        FeOp::SetVringKick(t),
+        FeOp::SetVringErr(t),
+        FeOp::GetConfig { off: 4 * t, size: 4, flags: 1 },
+        FeOp::SetConfig { off: 4 * t, flags: 0, buf: vec![t as u8; 4] },
+        FeOp::SetMemTable(vec![reg.clone()]),
+        FeOp::AddMemRegion(reg.clone()),
+        FeOp::RemoveMemRegion(reg),
+        FeOp::GetInflightFd([0x1000 + t as u64, 0], 2, 8),
+        FeOp::SetInflightFd([0x1000, 0], 2, 8),
+        FeOp::GetSharedObject([t as u8 + 1; 16]),
+        FeOp::GetShmemConfig,
+        FeOp::CheckDeviceState,
+        FeOp::SetDeviceStateFd(0),
+        FeOp::SetLogBase { base: 0x1000, region: Some((0x1000, 0)) },
+    ]
+}
+
+#[derive(Serialize, Deserialize, Debug, Clone)]
+pub struct AllOpsCase {
+    pub threads: u8,
+    pub calls: u32,
+    pub need_reply: bool,
+}
+
+/// identity check: does the returned value belong to the caller's own request?
+fn own_answer(op: &FeOp, t: u32, r: &crate::feops::Ret) -> bool {
+    use crate::feops::Ret;
+    match (op, r) {
+        (FeOp::GetVringBase(_), Ret::U64(v)) => *v == 1000 + t as u64,
+        (FeOp::GetConfig { off, .. }, Ret::Config { off: o, payload, .. }) => o == off && payload.iter().all(|b| *b == t as u8),
+        (FeOp::GetInflightFd(ms, ..), Ret::Inflight(got, ..)) => got[0] == ms[0],
+        _ => true,
+    }
+}
+
+pub fn run_all_ops_stress(ctx: &mut Ctx, c: &AllOpsCase) -> Result<(), String> {
+    let st = crate::feops::FeState { max_queue: 0x8000, offered_vf: spec::VIRTIO_F_PROTOCOL_FEATURES | 1 << 32, acked_vf: spec::VIRTIO_F_PROTOCOL_FEATURES | 1 << 32, acked_pf: 0x3f_ffff & !(1 << 8), need_reply: c.need_reply };
+    let (f, sock) = super::c01::frontend_in_state(&st);
+    let stop = Arc::new(AtomicBool::new(false));
+    let stop2 = stop.clone();
+    let responder = std::thread::spawn(move || {
+        let mut peer = Peer { sock, buf: Vec::new(), frames: Vec::new(), answered: 0, gpu_seq: 0 };
+        while !stop2.load(Ordering::Acquire) {
+            peer.poll();
+            while peer.answered < peer.frames.len() {
+                let fr = peer.frames[peer.answered].clone();
+                if let Some((bytes, nfds)) = answer_any_fe(&fr) {
+                    let fds = crate::srv::fresh_fds(nfds, crate::fdtrack::FdKind::Memfd);
+                    let raw: Vec<std::os::fd::RawFd> = fds.iter().map(|x| x.as_raw_fd()).collect();
+                    let _ = rawpeer::send_all(peer.sock.as_raw_fd(), &bytes, &raw);
+                }
+                peer.answered += 1;
+            }
+            // keep the bookkeeping small
+            if peer.frames.len() > 4096 {
+                peer.frames.clear();
+                peer.answered = 0;
+            }
+            std::thread::yield_now();
+        }
+    });
+    let err: Arc<Mutex<Option<String>>> = Arc::new(Mutex::new(None));
+    let mut hs = Vec::new();
+    for t in 0..c.threads as u32 {
+        let (mut f, err, calls, st) = (f.clone(), err.clone(), c.calls, st.clone());
+        hs.push(std::thread::spawn(move || {
+            let ops = all_fe_ops(t);
+            for j in 0..calls {
+                // a different walk through the vocabulary per thread so that neighbours use different request codes
+                let op = &ops[((j as usize) * (2 * t as usize + 1) + t as usize) % ops.len()];
+                if !op.has_reply(&st) && !op.awaits_ack(&st) {
+                    continue;
+                }
+                let mut lent = crate::feops::make_lent(op);
+                match crate::feops::perform(&mut f, op, &mut lent) {
+                    Err(e) => {
+                        *err.lock().unwrap() = Some(format!("thread {t} call {j} {}({op:?}): error {e} although the peer answers every request correctly and in order", op.name()));
+                        return;
+                    }
+                    Ok(r) if !own_answer(op, t, &r) => {
+                        *err.lock().unwrap() = Some(format!("thread {t} call {j} {}({op:?}) returned {r:?}: the answer to another caller's request", op.name()));
+                        return;
+                    }
+                    _ => {}
+                }
+            }
+        }));
+    }
+    let t0 = Instant::now();
+    let mut hung = false;
+    for h in hs {
+        while !h.is_finished() {
+            if t0.elapsed() > Duration::from_secs(120) || err.lock().unwrap().is_some() {
+                hung = true;
+                break;
+            }
+            std::thread::sleep(Duration::from_micros(200));
+        }
+        if h.is_finished() {
+            let _ = h.join();
+        }
+    }
+    stop.store(true, Ordering::Release);
+    let _ = responder.join();
+    let n = c.threads as u64 * c.calls as u64;
+    ctx.evals(n);
+    ctx.class_n(if c.need_reply { "all_ops_stress_calls_acked" } else { "all_ops_stress_calls" }, n);
+    ctx.nontrivial(&("all_ops_stress", c.threads, c.need_reply));
+    if let Some(e) = err.lock().unwrap().clone() {
+        return Err(format!("all-operations stress: {e}"));
+    }
+    if hung {
+        return Err("all-operations stress: callers do not complete within 120 s".into());
+    }
+    Ok(())
+}
+
+// ------------------------------------------------------------------ completion when the peer misbehaves while an answer is awaited
+
+#[derive(Serialize, Deserialize, Debug, Clone, Copy, Hash, PartialEq, Eq)]
+pub enum Fault {
+    /// the peer reads the request and closes the connection
+    Disconnect,
+    /// the peer answers with a message that is not the reply to that request
+    WrongAnswer,
+    /// the peer sends half a header and closes
+    HalfHeader,
+}
+
+#[derive(Serialize, Deserialize, Debug, Clone)]
+pub struct FaultCase {
+    pub endpoint: Endpoint,
+    pub kind: OpKind,
+    pub fault: Fault,
+}
+
+/// "all calls complete (no self-deadlock)": a call whose answer never arrives properly returns, and does not leave the
+/// endpoint's lock taken — a call on another clone afterwards returns too.
+pub fn run_fault_case(ctx: &mut Ctx, c: &FaultCase) -> Result<(), String> {
+    let (ep, mut peer) = make_endpoint(c.endpoint)?;
+    let ep2 = ep.clone();
+    let kind = c.kind;
+    let first = std::thread::Builder::new().name("c10_fault_first".into()).spawn(move || call(&ep, kind, 1)).map_err(|e| e.to_string())?;
+    // wait for the request to be on the wire
+    let t0 = Instant::now();
+    while peer.frames.is_empty() && t0.elapsed() < BOUND {
+        peer.poll();
+        std::thread::sleep(Duration::from_micros(100));
+    }
+    if peer.frames.is_empty() {
+        return Err(format!("{c:?}: the request never reached the wire"));
+    }
+    let code = peer.frames[0].code;
+    match c.fault {
+        Fault::Disconnect => {}
+        Fault::WrongAnswer => {
+            let wrong = match c.endpoint {
+                Endpoint::Gpu => spec::msg(code + 1, spec::gpu::F_REPLY, &[0u8; 8]),
+                _ => spec::reply(code + 1, &spec::b_u64(0)),
+            };
+            let _ = rawpeer::send_all(peer.sock.as_raw_fd(), &wrong, &[]);
+        }
+        Fault::HalfHeader => {
+            let _ = rawpeer::send_all(peer.sock.as_raw_fd(), &spec::reply(code, &spec::b_u64(0))[..6], &[]);
+        }
+    }
+    let _ = peer.sock.shutdown(std::net::Shutdown::Both);
+    let wait = |h: std::thread::JoinHandle<Result<Option<u32>, String>>, what: &str| -> Result<Result<Option<u32>, String>, String> {
+        let t0 = Instant::now();
+        while !h.is_finished() {
+            if t0.elapsed() > BOUND {
+                return Err(format!("{c:?}: {what} has not returned {BOUND:?} after the peer {:?} (self-deadlock or indefinite wait)", c.fault));
+            }
+            std::thread::sleep(Duration::from_micros(200));
+        }
+        h.join().map_err(|_| format!("{c:?}: {what} panicked"))
+    };
+    let r1 = wait(first, "the call awaiting its answer")?;
+    if r1.is_ok() {
+        return Err(format!("{c:?}: the call returned Ok({:?}) although no reply to it was ever sent", r1.unwrap()));
+    }
+    // the lock must be free again: a fire-and-forget call on another clone returns (with whatever result)
+    let second = std::thread::Builder::new().name("c10_fault_second".into()).spawn(move || call(&ep2, OpKind::Forget, 2)).map_err(|e| e.to_string())?;
+    let _ = wait(second, "a later call on another clone")?;
+    ctx.class(&format!("fault_{:?}", c.fault));
+    ctx.nontrivial(&("fault", c.endpoint, c.kind, c.fault));
+    ctx.sample(|| json!({"fault_case": c, "first_call_result": format!("{r1:?}")}));
+    Ok(())
+}
+
 fn perms(n: usize) -> Vec<Vec<u8>> {
     fn go(rest: Vec<u8>, cur: &mut Vec<u8>, out: &mut Vec<Vec<u8>>) {
         if rest.is_empty() {
@@ -465,7 +712,7 @@ pub fn run(ctx: &mut Ctx) {
                 callers over {reply-bearing, second reply-bearing code, acknowledged, fire-and-forget} x every release order of parked callers; the \
                 first caller is parked between 'request written' and 'reply read', the others are started and allowed to settle (parked / finished / \
                 asleep on the lock), the raw peer answers each request with that request's identity. Plus uncontrolled stress (8 threads x 200 mixed \
-                calls per endpoint). Non-trivial = a run in which another caller attempted its call while the first was parked at reply_wait."
+                calls per endpoint) and a stress over all 27 answer-awaiting Frontend operations (8 threads x 4000 calls, with and without acknowledgements). Plus, per endpoint and answer-awaiting call kind, the peer disconnecting / answering with another message / sending half a header while the answer is awaited: the call must return an error and a later call on another clone must return. Non-trivial = a run in which another caller attempted its call while the first was parked at reply_wait, a fault case, a stress configuration."
         .into();
     ctx.assumptions = vec![
         "atomicity is explored at the granularity of the hold point (one window per call: after the write, before the read)".into(),
@@ -500,4 +747,24 @@ pub fn run(ctx: &mut Ctx) {
     let (threads, calls) = ctx.tier.pick((8u8, 200u32), (16u8, 20_000u32));
     let stress: Vec<StressCase> = [Endpoint::Frontend, Endpoint::BackendProxy, Endpoint::Gpu].into_iter().map(|endpoint| StressCase { endpoint, threads, calls }).collect();
     ctx.enumerate("stress", stress, |ctx, c| run_stress(ctx, c));
+
+    // the peer misbehaves while an answer is awaited: the call returns an error and the lock is released
+    let mut faults = Vec::new();
+    for endpoint in [Endpoint::Frontend, Endpoint::BackendProxy, Endpoint::Gpu] {
+        for kind in kinds {
+            if !awaits(endpoint, kind) {
+                continue;
+            }
+            for fault in [Fault::Disconnect, Fault::WrongAnswer, Fault::HalfHeader] {
+                faults.push(FaultCase { endpoint, kind, fault });
+            }
+        }
+    }
+    ctx.enumerate("peer_fault_completion", faults, |ctx, c| run_fault_case(ctx, c));
+
+    // every answer-awaiting Frontend operation (27 of them: each send/receive helper of the endpoint is exercised), mixed
+    // over clones, with and without negotiated acknowledgements
+    let (threads, calls) = ctx.tier.pick((8u8, 4000u32), (16u8, 50_000u32));
+    let all: Vec<AllOpsCase> = [true, false].into_iter().map(|need_reply| AllOpsCase { threads, calls, need_reply }).collect();
+    ctx.enumerate("all_ops_stress", all, |ctx, c| run_all_ops_stress(ctx, c));
 }
